@@ -15,7 +15,8 @@ import os
 from sim import devices
 from sim.canon import Log, dec_table, enc, canon_rows, canon_row
 from sim.core import outcome, ddmin_lists, draw_config
-from sim.devices import SimStore, SimCompressedSource
+from sim.devices import (SimStore, SimCompressedSource, PipeFault,
+                         SimSourceError)
 from sim.gen import FIELDS
 from sim.loader import load_petl
 
@@ -152,6 +153,12 @@ def gen_case(rng, tier, g):
             'config': draw_config(rng, 0.1),
             'history': hist,
             'read_header': rng.random() < 0.25 and fmt in ('csv', 'tsv'),
+            # a write attempt whose row source fails part-way, made before a
+            # TO operation; the caller keeps the exception until after the
+            # next successful write
+            'failed_write_before': [i for i, h in enumerate(hist)
+                                    if h[0] == 'TO' and rng.random() < 0.2],
+            'failed_at': rng.randint(0, 6),
             'frag': [rng.choice([1, 2, 3, 5, 7, 64, 8192])
                      for _ in range(rng.randint(1, 5))]
             if rng.random() < 0.7 else None}
@@ -337,6 +344,8 @@ def run_case(case):
         with devices.TempSandbox() as sb:
             store = SimStore(frag=case.get('frag'))
             tgt = Target(e, kind, fmt, store, sb.path, 't')
+            kept = []
+            long_view = [None]  # one reader view kept across the history
             records = []        # content model: rows in file order
             since_to = []       # tables written since the last TO
             enc_args = dict((k, v) for k, v in args.items()
@@ -373,6 +382,20 @@ def run_case(case):
                 else:
                     want = None
                 # ---- the write --------------------------------------------
+                if opi in case.get('failed_write_before', ()):
+                    # an earlier attempt that fails part-way (its row source
+                    # raises); the exception object is kept alive, as a caller
+                    # collecting errors would
+                    bad = PipeFault([list(r) for r in table] +
+                                    [list(table[-1])] * 5,
+                                    case.get('failed_at', 1))
+                    try:
+                        _write(e, fmt, 'TO', bad, tgt.w, args, wh)
+                    except SimSourceError as ex:
+                        kept.append(ex)
+                        probes['failed-write-attempt'] = 1
+                    except Exception:
+                        pass
                 try:
                     _write(e, fmt, op, table, tgt.w, args, wh)
                 except (UnicodeError, KeyError, IndexError, csv.Error) as ex:
@@ -384,6 +407,11 @@ def run_case(case):
                 records = new_records
                 since_to.append((table, whe))
                 log.add('op', opi, op, len(table))
+                if kept:
+                    # now the caller lets go of the old exception (and with it
+                    # of whatever the failed attempt left open)
+                    del kept[:]
+                    gc.collect()
                 if store.open_handles:
                     raise _Bad('handle-left-open', '%s: %d handles open '
                                'after %s #%d' % (what, store.open_handles,
@@ -391,6 +419,7 @@ def run_case(case):
                 # ---- read back through a fresh handle ----------------------
                 rd = tgt.reader()
                 got = None
+                fresh_view = None
                 try:
                     if fmt in ('csv', 'tsv'):
                         ra = dict(enc_args)
@@ -401,10 +430,12 @@ def run_case(case):
                         view = (e.fromcsv if fmt == 'csv' else e.fromtsv)(
                             rd, header=hdr_arg, **ra)
                         got = [r for r in iter(view)]
+                        fresh_view = view
                         if hdr_arg:
                             want = [tuple(hdr_arg)] + want
                     elif fmt == 'pickle':
-                        got = [r for r in iter(e.frompickle(rd))]
+                        fresh_view = e.frompickle(rd)
+                        got = [r for r in iter(fresh_view)]
                     elif fmt == 'json':
                         if 'prefix' in args:
                             raw = tgt.raw().decode('utf-8')
@@ -415,7 +446,8 @@ def run_case(case):
                                 tuple(d.get(f) for f in table[0])
                                 for d in ds]
                         else:
-                            got = [r for r in iter(e.fromjson(rd))]
+                            fresh_view = e.fromjson(rd)
+                            got = [r for r in iter(fresh_view)]
                             got2, want2 = _json_header_read(
                                 e, rd, table, False)
                             if canon_rows(got2) != canon_rows(want2):
@@ -424,7 +456,8 @@ def run_case(case):
                                            'missing= gives %r, expected %r'
                                            % (what, got2, want2))
                     elif fmt == 'jsonlines':
-                        got = [r for r in iter(e.fromjson(rd, lines=True))]
+                        fresh_view = e.fromjson(rd, lines=True)
+                        got = [r for r in iter(fresh_view)]
                         got2, want2 = _json_header_read(e, rd, table, True)
                         if canon_rows(got2) != canon_rows(want2):
                             raise _Bad('round-trip-differs',
@@ -446,6 +479,28 @@ def run_case(case):
                     raise _Bad('handle-left-open', '%s: %d handles open '
                                'after reading back' % (what,
                                                        store.open_handles))
+                # a reader view created earlier in the history is iterated
+                # again: it must show what the target holds now
+                if want is not None and kind != 'memory' and \
+                        fresh_view is not None:
+                    if long_view[0] is None:
+                        long_view[0] = fresh_view
+                    else:
+                        try:
+                            again = [r for r in iter(long_view[0])]
+                        except Exception as ex:
+                            raise _Bad('read-back-raised',
+                                       '%s: a reader view created earlier, '
+                                       'iterated again after %s #%d, raised '
+                                       '%s: %s' % (what, op, opi,
+                                                   type(ex).__name__, ex))
+                        if canon_rows(again) != canon_rows(want):
+                            raise _Bad('old-view-differs',
+                                       '%s: a reader view created earlier, '
+                                       'iterated again after %s #%d, yields '
+                                       '%r; the target now holds %r'
+                                       % (what, op, opi, again, want))
+                        probes['old-reader-view-reiterated'] = 1
                 if want is not None:
                     log.add('read', canon_rows(got))
                     if canon_rows(got) != canon_rows(want):
@@ -559,6 +614,7 @@ def selfcheck(agg):
     for p in ['fmt:' + f for f in set(FORMATS)] + \
             ['target:' + t for t in set(TARGETS)] + \
             ['csv-identity-checked', 'append-bytes-compared',
+             'failed-write-attempt', 'old-reader-view-reiterated',
              'fragmented-reads', 'bom-encoding', 'multi-op-history']:
         if not agg['probes'].get(p):
             errs.append('probe never hit: ' + p)
